@@ -1157,6 +1157,11 @@ def evaluate_log_F_ext(
     if test.endswith("-inv"):
         max_num_RC = min((num_points + 10, max_num_RC))
 
+    if max_num_RC < 2:
+        raise KramersKronigError(
+            f"Expected at least four unmasked data points instead of {num_points}"
+        )
+
     if len(num_RCs) > 0 and max(num_RCs) > max_num_RC:
         raise KramersKronigError(
             f"The maximum value of num_RCs must be less than or equal to {max_num_RC}"
